@@ -87,6 +87,9 @@ def strategy(tier):
         "twin": st.sampled_from([None, None, "registered", "subclass", "registered-first", "subclass-first"]),
         # ABC registrations that happen only AFTER a first adaptation attempt (results must not be remembered across them)
         "late_regs": st.lists(st.tuples(I5, I5).map(list), max_size=2),
+        # a SHORT chain (k offers through fresh classes) that enters through an extra BASE class of the adaptee's class,
+        # competing with the (usually longer) constructed path whose offers are registered for nearer classes
+        "via_base": st.sampled_from([0, 0, 0, 1, 2, 2]),
     })
 
 
@@ -119,13 +122,32 @@ def run(case, ctx):
             Pcls = type("Sub", (classes[f0],), {})
             adaptee_cls = Pcls
         classes.append(Pcls)
-        new_offer = (len(classes) - 1, t0, 0)
+        new_offer = (Pcls, t0, 0)
         offers = [new_offer] + offers if twin.endswith("first") else offers + [new_offer]
         ctx.label("twin:" + twin)
+    vb = case.get("via_base", 0)
+    if vb and not twin and case["paths"] and case["start_at_path"]:
+        s0, t_end = case["paths"][0][0] % n, case["paths"][0][-1] % n
+        try:
+            far = type("FarBase", (object,), {})
+            adaptee_cls = type("SubB", (classes[s0], far), {})
+        except TypeError:
+            adaptee_cls = None
+        if adaptee_cls is not None:
+            classes.append(far)
+            prev = far
+            for step in range(vb - 1):
+                mid = type("Mid%d" % step, (object,), {})
+                classes.append(mid)
+                offers.append((prev, mid, 0))
+                prev = mid
+            offers.append((prev, t_end, 0))
+            ctx.label("via-base:%d" % vb)
     mgr = AdaptationManager()
     offs = []
     for oid, (f, t, cond) in enumerate(offers):
-        F, Tt = classes[f % len(classes)] if f >= n else classes[f % n], classes[t % n]
+        F = f if isinstance(f, type) else classes[f % n]         # (scenario classes are given as objects, drawn ones by index)
+        Tt = t if isinstance(t, type) else classes[t % n]
 
         def factory(adaptee, oid=oid, cond=cond):
             ch, _ = chain_of(adaptee)
